@@ -25,6 +25,9 @@ for d in sorted(glob.glob(os.path.join(HERE, "seeded", "C*_*"))):
     meta["detected_by"] = sorted(c for c, r in res.items() if r["exit"] == 1)
     meta["missed_by"] = sorted(c for c, r in res.items() if r["exit"] == 0)
     json.dump(meta, open(mp, "w"), indent=1)
+    if meta.get("obsolete"):
+        rows.append((sid, meta["property"], ["(obsolete: " + meta["obsolete"][:80] + "...)"], [], meta.get("needs", "")[:110]))
+        continue
     rows.append((sid, meta["property"], meta["detected_by"], meta["missed_by"], meta.get("needs", "")[:110]))
 print("| seeded change | breaks | detected by | run but quiet | needs |")
 print("|---|---|---|---|---|")
